@@ -996,6 +996,22 @@ def run_predform_case(p):
         mk = mk + [lambda: T(rng.choice(names), rng.choice([1, 2]))] * 3 + [lambda: O.PSubSub(rng.choice(names), rng.choice([1, 2]))]
         dom = [rng.choice(mk)() for _ in range(n)]
     style = rng.choice(['kw_name', 'pos_name', 'pos_name_size', 'kw_size', 'none', 'let'] + (['kw_noninit'] * 3 if T is O.PPost else []))
+    members = list(dom)
+    # the domain may be any iterable: a list, a tuple, a generator, a dict view, a frozenset (compared as sets then)
+    container = rng.choice(['list', 'list', 'tuple', 'generator', 'dict_values', 'frozenset', 'iterator'])
+    if container == 'tuple':
+        dom = tuple(members)
+    elif container == 'generator':
+        dom = (o for o in members)
+    elif container == 'dict_values':
+        dom = {i: o for i, o in enumerate(members)}.values()
+    elif container == 'frozenset':
+        dom = frozenset(members)
+    elif container == 'iterator':
+        dom = iter(members)
+    if rng.random() < 0.25:
+        # the registry is cleared after the instances were made: the type filter does not depend on what is registered
+        O.reset_registry()
     v_name, v_size = rng.choice(names), rng.choice([1, 2])
     try:
         with symbolic_mode():
@@ -1027,9 +1043,12 @@ def run_predform_case(p):
                 q = an(entity(x))
                 fields = {}
         got = list(q.evaluate())
-        want = [o for o in dom if isinstance(o, T) and all(getattr(o, f) == v for f, v in fields.items())]
+        want = [o for o in members if isinstance(o, T) and all(getattr(o, f) == v for f, v in fields.items())]
+        if container == 'frozenset':
+            got, want = sorted(got, key=id), sorted(want, key=id)
+        dom = members
     except Exception as e:  # noqa
-        return {'style': style, 'exception': repr(e), 'trace': traceback.format_exc(limit=4)}
+        return {'style': style, 'container': container, 'exception': repr(e), 'trace': traceback.format_exc(limit=4)}
     if not O.same_list_by_identity(got, want):
         return {'style': style, 'type': T.__name__, 'fields': fields, 'domain': repr([(type(o).__name__, o.name, o.size) for o in dom]),
                 'got': repr([(type(o).__name__, o.name, o.size) for o in got]),
@@ -1306,7 +1325,7 @@ def run_forall_case(p):
         # (a) two for_all over the SAME universal variable in one conjunction; (b) a for_all followed by a condition in which
         # the same variable is an ordinary (existential) variable; (c) the universal is an EXPRESSION (an attribute of a
         # variable) whose values include falsy ones
-        kind = rng.choice(['two_foralls', 'then_existential', 'expression', 'expression'])
+        kind = rng.choice(['two_foralls', 'then_existential', 'expression', 'expression', 'flatten_free', 'flatten_free'])
         du = O.make_domain(rng, rng.choice([1, 2, 3]), falsy=(kind == 'expression'))
         c1 = ('cmp', rng.choice(['le', 'ge', 'ne', 'lt', 'gt']), ('attr', 0, 'size'), ('attr', 1, 'size'))
         c2 = ('cmp', rng.choice(['le', 'ge', 'ne', 'lt', 'gt']), ('index', 0, 'k'), ('attr', 1, 'size'))
@@ -1320,6 +1339,14 @@ def run_forall_case(p):
                 elif kind == 'then_existential':
                     conds = [for_all(u, O.build(c1, [x, u])), O.build(c2, [x, u])]
                     ref = lambda a: all(O.holds(c1, {0: a, 1: b}) for b in du) and any(O.holds(c2, {0: a, 1: b}) for b in du)  # noqa
+                elif kind == 'flatten_free':
+                    # the free part of the condition is a FLATTENED element of x: one and the same element has to satisfy the
+                    # condition for every u (an x comes out once per such element, compared as a set of x)
+                    from entity_query_language import flatten
+                    pe = flatten(x.tags)
+                    op2 = rng.choice(['le', 'ge', 'ne', 'lt'])
+                    conds = [for_all(u, O.OPS[op2](pe, u.size))]
+                    ref = lambda a: any(all(O.OPS[op2](e, b.size) for b in du) for e in a.tags)  # noqa
                 else:
                     op = c1[1]
                     conds = [for_all(u.size, O.OPS[op](x.size, u.size))] + ([O.build(extra, [x])] if extra is not None else [])
@@ -1389,7 +1416,7 @@ def run_concat_case(p):
         all1 = [t for o in dom for t in o.tags]
         all2 = [t for o in dom for t in o.props['more']]
         other = ('cmp', rng.choice(['ge', 'le', 'eq', 'ne']), ('attr', 0, 'size'), ('lit', rng.choice([1, 2, 3])))
-        shape = rng.choice(['or_first', 'or_second', 'and_first', 'and_second', 'two', 'two_or', 'not_or', 'selected'])
+        shape = rng.choice(['or_first', 'or_second', 'and_first', 'and_second', 'two', 'two_or', 'not_or', 'selected', 'not_not', 'not_or_not', 'not_and_not'])
         try:
             with symbolic_mode():
                 x = let(type_=O.Item, domain=dom)
@@ -1413,6 +1440,12 @@ def run_concat_case(p):
                     cond, ref = and_(oc, m1), lambda o: O.holds(other, {0: o}) and (o.size in all1)
                 elif shape == 'not_or':
                     cond, ref = not_(or_(oc, m1)), lambda o: not (O.holds(other, {0: o}) or (o.size in all1))
+                elif shape == 'not_not':
+                    cond, ref = not_(not_(m1)), lambda o: o.size in all1
+                elif shape == 'not_or_not':
+                    cond, ref = not_(or_(oc, not_(m1))), lambda o: (not O.holds(other, {0: o})) and (o.size in all1)
+                elif shape == 'not_and_not':
+                    cond, ref = not_(and_(oc, not_(m1))), lambda o: (not O.holds(other, {0: o})) or (o.size in all1)
                 else:
                     m2 = in_(y.size, concatenate(x.props['more']))
                     if shape == 'two':
@@ -1454,6 +1487,9 @@ def run_concat_case(p):
         want0 = [t for o in dom for t in o.tags]
         if len(vals) != 1 or list(vals[0]) != want0:
             return {'what': 'concatenate value', 'got': repr(vals), 'want': repr([want0]), 'signature_kind': 'value'}
+        vals2 = list(q0.evaluate())           # the same value on every evaluation, and the first value is left alone
+        if len(vals2) != 1 or list(vals2[0]) != want0 or list(vals[0]) != want0:
+            return {'what': 'concatenate value on re-evaluation', 'got': repr([vals, vals2]), 'want': repr([want0]), 'signature_kind': 'value-again'}
         with symbolic_mode():
             x = let(type_=O.Item, domain=dom)
             y = let(type_=O.Item, domain=probe)
